@@ -26,7 +26,7 @@ RULE = (
     "never; outsourced values; files with unix, dos or mixed line endings; all 16 approved sets. Oracle in process: collecting the "
     "changes, apply_all and fix_all raise nothing, the replacements recorded for a file are pairwise "
     "non-overlapping (checked on the recorder, independently of the internal assert) and the result parses. "
-    "Oracle in a real session (started in the project directory, in its parent or in a sibling directory): no INTERNALERROR, exit status in {0, 1}, the inline-snapshot report terminates, "
+    "Oracle in a real session (started in the project directory, in its parent or in a sibling directory, or reaching the file through a symlinked directory): no INTERNALERROR, exit status in {0, 1}, the inline-snapshot report terminates, "
     "the files parse. non-trivial = a test raised or a comparison failed, and a nested snapshot or a raising "
     "comparison is present."
 )
@@ -107,7 +107,7 @@ def _case(draw, tier):
             # line endings of the file: unix, dos, or both kinds in one file
             "eol": draw(st.sampled_from(["lf", "lf", "lf", "crlf", "mixed", "mixed", "cr"])),
             # (real sessions) where pytest is started: in the project, in its parent or in a sibling directory
-            "cwd": draw(st.sampled_from(["project", "project", "parent", "sibling"]))}
+            "cwd": draw(st.sampled_from(["project", "project", "parent", "sibling", "symlink"]))}
 
 
 def render_frag(f):
@@ -259,6 +259,12 @@ def check_pytest(case):
         args = ["--inline-snapshot=" + ",".join(F)] if F else []
         if cwd == "project":
             r = drivers.run_pytest(d, args)
+        elif cwd == "symlink":
+            # the test file is reached through a symlinked directory
+            (d / "proj").rename(d / "shared")
+            (d / "link").symlink_to("shared", target_is_directory=True)
+            r = drivers.run_pytest(d, args + ["link/test_a.py"])
+            r.files_after = {"test_a.py": (d / "shared" / "test_a.py").read_bytes()}
         elif cwd == "parent":
             r = drivers.run_pytest(d, args + ["proj/test_a.py"])
             r.files_after = {"test_a.py": (d / "proj" / "test_a.py").read_bytes()}
